@@ -1501,6 +1501,29 @@ def chk_bag_vector(what):
             h = hg.Bag(qv, rng)
             for k, idx in enumerate(seq):
                 h.fill(vec(idx), 1.0 + k)
+            if what in ("merge", "scale"):
+                half = max(1, len(seq) // 2)
+                a, b = hg.Bag(qv, rng), hg.Bag(qv, rng)
+                for k, idx in enumerate(seq):
+                    (a if k < half else b).fill(vec(idx), 1.0 + k)
+                if what == "merge":
+                    for r, nm in ((a + b, "a + b"), (b + a, "b + a"), (a + b.zero() + b, "a + zero + b")):
+                        if not approx_eq(r.toJson(), h.toJson()) or len(r.values) != len(h.values):
+                            return f"Bag {rng}: {nm} differs from filling everything into one Bag for {seq}: {js(r)} vs {js(h)}"
+                    c = a.copy()
+                    c += b
+                    if not approx_eq(c.toJson(), h.toJson()) or len(c.values) != len(h.values):
+                        return f"Bag {rng}: a += b differs from filling everything into one Bag for {seq}"
+                else:
+                    r = h * 2.0
+                    w2 = hg.Bag(qv, rng)
+                    for k, idx in enumerate(seq):
+                        w2.fill(vec(idx), 2.0 * (1.0 + k))
+                    if not approx_eq(r.toJson(), w2.toJson()) or len(r.values) != len(h.values):
+                        return f"Bag {rng}: h * 2 differs from filling with doubled weights for {seq}: {js(r)} vs {js(w2)}"
+                    if (h * 0.0).entries != 0.0 or len((h * 0.0).values) != 0:
+                        return f"Bag {rng}: h * 0 is not empty for {seq}"
+                continue
             if what == "fill":
                 # the map has one key per distinct vector (NaN == NaN), weights add, entries is the total
                 want = {}
